@@ -289,6 +289,46 @@ def run_responses(ctx, exe, model):
     return bool(bad), nresp
 
 
+def run_stale_index(ctx, exe, model):
+    """references to dynamic-table entries around the end of the table, right after insertions that evict: an index one past the last entry the
+    encoder still has must be refused (RFC 7541 2.3.3), the last one it has must be accepted - the decoder has to evict exactly when the encoder does"""
+    rng = ctx.rng
+    lines = []; decs = []; meta = []
+    for _ in range(400 if ctx.tier == "thorough" else 60):
+        cap = rng.choice([64, 100, 128, 150, 200, 300])
+        f1 = [(b":method", b"GET"), (b":scheme", b"http"), (b":path", b"/h"), (b":authority", b"h.example")]
+        p1 = ["L"] * 4
+        for k in range(rng.randrange(2, 7)):
+            f1.append((b"x-s%d" % k, b"v" * rng.randrange(1, 45))); p1.append("I")
+        f2 = [(b":method", b"GET"), (b":scheme", b"http"), (b":path", b"/h"), (b":authority", b"h.example")]
+        conn = [("req", 1, f1, p1, [cap]), ("req", 3, f2, ["L"] * 4, [])]
+        _, eo, _ = vlib.run_lines(model, [enc_line(conn)])
+        if not eo or "ERR" in eo[0]: continue
+        b1, b2 = [unhx(x) for x in eo[0].split(" | ")]
+        for i in range(62, 70):
+            m = b2 + bytes([0x80 | i])
+            lines.append("P SA HX:1:5:%s HX:3:5:%s" % (hx(b1), hx(m))); decs.append("DEC | %s | %s" % (hx(b1), hx(m))); meta.append((cap, i))
+    if not lines: return False
+    rc, out, err = vlib.run_lines_sharded(exe, lines, args=["body"])
+    _, dec_out, _ = vlib.run_lines_sharded(model, decs)
+    ctx.cov["evaluations"] += len(lines)
+    bad = None; acc = 0; rej = 0
+    for line, o, do, (cap, i) in zip(lines, out, dec_out, meta):
+        if o == "<crash>": continue
+        st, _ = streams_of(o)
+        e = st.get(3)
+        served = bool(e and e["body"] and parse_dump(e["body"]) is not None)
+        spec_ok = do.split(" | ")[-1] not in ("ERR", "DEAD", "?", "")
+        acc += served; rej += (not served)
+        if served != spec_ok and bad is None:
+            bad = (line, "a header block referring to dynamic-table index %d (table capacity %d) is %s by the implementation and %s by the RFC 7541 decoder: the two tables "
+                         "no longer hold the same entries" % (i, cap, "accepted" if served else "refused", "accepted" if spec_ok else "refused"), o)
+    if bad:
+        ctx.violate("hpack-stale-index", "C07 fails on the implementation: %s; connection: %s" % (bad[1], bad[0][:500]), dict(kind="monitor", case=bad[0], why=bad[1], impl=bad[2][:3000], harness="h2_h body", direction="corrupt"))
+    ctx.cov["correspondence"]["hpack-table-end"] = dict(blocks=len(lines), accepted=acc, refused=rej, disagreements=int(bool(bad)))
+    return bool(bad)
+
+
 def run_corruptions(ctx, exe, model):
     """every single-byte corruption of valid blocks: the implementation either refuses the block (RST/GOAWAY/4xx) or hands the handler exactly what the
     spec decoder reads -- never a silently different list"""
@@ -377,6 +417,7 @@ def run(ctx):
     f1, nreq = run_requests(ctx, exe, model)
     f2, nresp = run_responses(ctx, exe, model)
     f3 = run_corruptions(ctx, exe, model)
+    f3 = run_stale_index(ctx, exe, model) or f3
     ctx.cov["distinct_nontrivial"] += nreq + nresp
     ctx.cov["rule"] = ("request direction: header lists encoded by the extracted Gallina encoder under 10 representation policies (indexed / incremental / literal / never-indexed, "
                        "name index, Huffman) with table-size updates, 1-60 requests per connection mixed with discarded blocks (trailers on finished streams, requests rejected "
